@@ -3,7 +3,7 @@
 //! For every generated logical table (single-typed columns with NULLs; columns absent / all-NULL in some
 //! row ranges) several databases are built that hold the SAME rows in different physical realisations
 //! (batch split, flush subset, partition_combine_factor, mem_lz4, max_partition_size_bytes, batch_size,
-//! threads, memory / disk / restarted-and-cold).  Every query of the supported fragment is run against every
+//! threads, memory / disk / restarted-and-cold / on disk and evicted in the same process).  Every query of the supported fragment is run against every
 //! realisation; one case = logical table + query + (actual partition split, observed compaction inputs,
 //! canonical output) per realisation.  The Lean driver demands: every realisation agrees with the reference
 //! evaluator on the logical table (hence with each other), and the combine model run on the actual split
@@ -16,7 +16,8 @@ use vharness::*;
 const DEADLINE_S: u64 = 30;
 
 #[derive(Clone, Copy, Debug, PartialEq)]
-enum Mode { Mem, Disk, Cold }
+enum Mode { Mem, Disk, Cold, /// on disk, same process: `evict_cache()` before every query (flushed partitions, compacted or not, must be reloaded through the in-memory catalogue)
+    Evict }
 
 #[derive(Clone, Debug)]
 struct Real { r: Realisation, mode: Mode, part_bytes: u64 }
@@ -356,8 +357,10 @@ fn gen_real(rng: &mut Rng, n: usize, cuts: &[usize], idx: usize) -> Real {
     }
     let nb = r.bounds.len() - 1;
     r.flush = match rng.below(4) { 0 => vec![true; nb], 1 => (0..nb).map(|i| i + 1 < nb).collect(), _ => (0..nb).map(|_| rng.chance(1, 2)).collect() };
-    let mode = *rng.pick(&[Mode::Mem, Mode::Mem, Mode::Disk, Mode::Cold]);
+    let mode = *rng.pick(&[Mode::Mem, Mode::Mem, Mode::Disk, Mode::Cold, Mode::Evict]);
     let part_bytes = *rng.pick(&[1u64, 64, 300, 8 << 20, 8 << 20]);
+    // evicted layouts: mostly everything flushed, so that every row has to come back from a partition file
+    if mode == Mode::Evict && rng.chance(2, 3) { r.flush = vec![true; nb]; }
     Real { r, mode, part_bytes }
 }
 
@@ -389,6 +392,12 @@ fn query_msg(db: &Arc<LocustDB>, sql: &str) -> (QOut, String) {
     }
 }
 
+/// Drop every resident column of every flushed partition (same process, catalogue untouched).
+fn evict(db: &Arc<LocustDB>) -> usize {
+    let db2 = db.clone();
+    match with_deadline(DEADLINE_S, move || db2.evict_cache()) { Some(Ok(b)) => b, _ => 0 }
+}
+
 struct Job { prefix: String, t: LTable, reals: Vec<Real>, queries: Vec<Query> }
 
 fn run_table(idx: usize, job: &Job) -> Vec<CaseRow> {
@@ -411,6 +420,7 @@ fn run_table(idx: usize, job: &Job) -> Vec<CaseRow> {
                 outs.push("skip".to_string());
                 continue;
             }
+            if real.mode == Mode::Evict { if let (Some(db), None) = (&dbs[i].db, &dbs[i].fault) { let b = evict(db); details.push(format!("R{}: evicted {}B", i, b)); } }
             let (out, emsg) = match (&dbs[i].db, &dbs[i].fault) {
                 (Some(db), None) => query_msg(db, &sql),
                 (_, Some(f)) => (if f.starts_with("hang") { QOut::Hang } else { QOut::Panic(format!("build {}", f)) }, String::new()),
@@ -419,7 +429,7 @@ fn run_table(idx: usize, job: &Job) -> Vec<CaseRow> {
             // the machine is shared: a deadline can be missed under load; a hang counts only if it repeats on a fresh database
             let (out, emsg) = if matches!(out, QOut::Hang) && dbs[i].fault.is_none() {
                 dbs[i] = build(t, real, &tname);
-                match (&dbs[i].db, &dbs[i].fault) { (Some(db), None) => query_msg(db, &sql), _ => (out, emsg) }
+                match (&dbs[i].db, &dbs[i].fault) { (Some(db), None) => { if real.mode == Mode::Evict { evict(db); } query_msg(db, &sql) } _ => (out, emsg) }
             } else { (out, emsg) };
             if !emsg.is_empty() && !emsg.starts_with("Overflow") { details.push(format!("R{}: {}", i, emsg)); }
             let tok = if dbs[i].fault.is_some() { format!("build-{}", out.tok()) } else { canon(&q.kind, &out) };
@@ -436,6 +446,7 @@ fn run_table(idx: usize, job: &Job) -> Vec<CaseRow> {
         let mut lay: Vec<&str> = vec![];
         if reals.iter().any(|r| r.mode == Mode::Disk) { lay.push("disk"); }
         if reals.iter().any(|r| r.mode == Mode::Cold) { lay.push("cold"); }
+        if reals.iter().enumerate().any(|(i, r)| r.mode == Mode::Evict && !dbs[i].split.is_empty()) { lay.push("evict"); }
         if dbs.iter().any(|d| d.obs != "-") { lay.push("compacted"); }
         // coverage class: query branch + coarse features + layout features (the fine feature string stays in the note)
         let w = if q.pred.is_some() { "w" } else { "-" };
@@ -589,6 +600,66 @@ fn corpus(jobs: &mut Vec<Job>) {
     jobs.push(Job { prefix: "corpus:sum-overflow-order/".into(), t, reals: vec![one(3), fixed_real(vec![0, 1, 3], vec![true, false], false, 999, Mode::Mem), fixed_real(vec![0, 2, 3], vec![true, false], false, 999, Mode::Mem)], queries: vec![q_agg(Kind::Agg, vec![Item::Agg("sum", 1)], "w-+su")] });
 }
 
+/// Fixed realisation pairs that the random generator reaches rarely or never (they head every run like the corpus):
+/// * `pair:evict-same-process/`  built on disk, flushed WITH (combine factor 0 / 1) and WITHOUT (999) compaction, `evict_cache()`,
+///   queried in the same process — against memory, warm disk and restarted-and-cold layouts of the same rows;
+/// * `pair:big-partition/`       float columns of > 1024 rows whose encoding-deciding property (f32-exact, integer-valued, finite,
+///   magnitude) changes late: ONE big partition (open buffer / flushed / compacted / evicted) vs several small partitions.
+fn layout_pairs(jobs: &mut Vec<Job>, rng: &mut Rng) {
+    let one = |n: usize| fixed_real(vec![0, n], vec![false], false, 999, Mode::Mem);
+    let col = |c: usize| Item::Expr(Ex::Col(c));
+    let cmp = |op: &'static str, c: usize, k: Cell| Some(Ex::Cmp(op, Box::new(Ex::Col(c)), Box::new(Ex::Lit(k))));
+    // --- evicted in the same process
+    for (n, seedcols) in [(40usize, 3usize), (9, 2)] {
+        let t = gen_table(rng, n, seedcols, true, true);
+        let (a, b) = (n / 3, 2 * n / 3);
+        let mut reals = vec![one(n)];
+        for (cf, bounds) in [(1u64, vec![0, a, n]), (0, vec![0, a, b, n]), (999, vec![0, a, b, n]), (999, vec![0, n]), (4, vec![0, a, b, n])] {
+            let nb = bounds.len() - 1;
+            reals.push(fixed_real(bounds, vec![true; nb], false, cf, Mode::Evict));
+        }
+        reals.push(fixed_real(vec![0, a, n], vec![true, true], false, 1, Mode::Cold));
+        reals.push(fixed_real(vec![0, a, n], vec![true, true], false, 1, Mode::Disk));
+        // small sub-partition files: several files per partition, the catalogue has to find the right one for every column
+        let mut r = fixed_real(vec![0, a, n], vec![true, true], false, 1, Mode::Evict); r.part_bytes = 64; reals.push(r);
+        let mut r = fixed_real(vec![0, b, n], vec![true, true], true, 999, Mode::Evict); r.part_bytes = 1; reals.push(r);
+        let mut queries = vec![Query { kind: Kind::Sel, items: (0..t.cols.len()).map(col).collect(), pred: None, order: vec![], limit: None, offset: 0, feat: "w-".into() }];
+        for kind in [Kind::Sel, Kind::Ord, Kind::Grp, Kind::Agg] { for _ in 0..2 { queries.push(gen_query(rng, &t, kind.clone())); } }
+        jobs.push(Job { prefix: "pair:evict-same-process/".into(), t, reals, queries });
+    }
+    // --- one big partition vs several small ones, float columns whose deciding property flips late
+    for (n, pos, tail) in [(1500usize, 1200usize, true), (1500, 1024, false), (3000, 2999, false), (1100, 1025, true)] {
+        let base: Vec<f64> = (0..n).map(|_| (rng.range(-8_000_000, 8_000_000) as f32 * 0.125) as f64).collect();
+        let fl = |i: usize| if tail { i >= pos } else { i == pos };
+        // c1: f32-exact -> not; c2: integer-valued -> fractional and beyond the f32 range; c3: finite -> NaN payload / subnormal in f32, with NULLs
+        let c1: Vec<Cell> = (0..n).map(|i| Cell::f(if fl(i) { base[i].trunc() + 0.1 } else { base[i] })).collect();
+        let c2: Vec<Cell> = (0..n).map(|i| Cell::f(if fl(i) { if i % 2 == 0 { i as f64 + 0.3 } else { 1e300 + i as f64 * 1e290 } } else { (i * 3) as f64 })).collect();
+        let c3: Vec<Cell> = (0..n).map(|i| if i % 13 == 5 && !fl(i) { Cell::Null } else { Cell::f(if fl(i) { if i % 2 == 0 { f64::from_bits(0xfff8_0000_0000_0001 + i as u64) } else { 1e-40 * (1 + i % 7) as f64 } } else { i as f64 + 0.5 }) }).collect();
+        let t = table(vec![("id", ColType::Id, ints(&(0..n as i64).collect::<Vec<i64>>())), ("c1", ColType::Float("late-f32"), c1.clone()), ("c2", ColType::Float("late-int"), c2), ("c3", ColType::Float("late-nan"), c3)]);
+        let third = n / 3;
+        let small: Vec<usize> = (0..=n).step_by(500).chain(std::iter::once(n)).collect::<std::collections::BTreeSet<usize>>().into_iter().collect();
+        let nsmall = small.len() - 1;
+        let reals = vec![
+            one(n),                                                                                    // one big open buffer
+            fixed_real(small.clone(), vec![true; nsmall], false, 999, Mode::Mem),                      // small partitions (<= 500 rows)
+            fixed_real(vec![0, n], vec![true], false, 999, Mode::Mem),                                 // one big flushed partition
+            fixed_real(small.clone(), vec![true; nsmall], false, 0, Mode::Disk),                       // small partitions compacted into a big one
+            fixed_real(vec![0, third, n], vec![false, true], false, 999, Mode::Evict),                 // two batches, one big partition, evicted
+            fixed_real(vec![0, 60, n], vec![true, true], false, 999, Mode::Cold),                      // small + big partition, cold
+        ];
+        let lo = pos.saturating_sub(4) as i64;
+        let member = c1[pos].clone();
+        let queries = vec![
+            Query { kind: Kind::Sel, items: vec![col(0), col(1), col(2), col(3)], pred: cmp(">=", 0, Cell::Int(lo)), order: vec![], limit: Some(12), offset: 0, feat: "w:i>=+lim".into() },
+            Query { kind: Kind::Sel, items: vec![col(0), col(1)], pred: cmp("=", 1, member), order: vec![], limit: None, offset: 0, feat: "w:f=".into() },
+            Query { kind: Kind::Sel, items: vec![col(3), col(2)], pred: cmp(">", 0, Cell::Int(n as i64 - 9)), order: vec![], limit: None, offset: 0, feat: "w:i>".into() },
+            Query { kind: Kind::Ord, items: vec![col(0), col(2)], pred: cmp(">=", 0, Cell::Int(lo - 20)), order: vec![(2, true)], limit: Some(6), offset: 0, feat: "w:i>=+kfv+lim".into() },
+            Query { kind: Kind::Agg, items: vec![Item::Agg("min", 1), Item::Agg("max", 1), Item::Agg("max", 2), Item::Agg("count", 3)], pred: cmp(">=", 0, Cell::Int(lo - 20)), order: vec![], limit: None, offset: 0, feat: "w:i>=+miFmaFmaFcoF".into() },
+        ];
+        jobs.push(Job { prefix: "pair:big-partition/".into(), t, reals, queries });
+    }
+}
+
 fn parse_cell_tok(c: &str) -> Cell {
     if c == "_" { Cell::Null }
     else if let Some(i) = c.strip_prefix('i') { Cell::Int(i.parse().unwrap()) }
@@ -619,8 +690,8 @@ fn replay(path: &std::path::Path) {
         let Some(p) = seg.find('[') else { continue };
         let body = &seg[p + 1..];
         let f: Vec<&str> = body.split(' ').collect();
-        if f.len() < 3 || !(f[0] == "Mem" || f[0] == "Disk" || f[0] == "Cold") { continue; }
-        let mode = match f[0] { "Mem" => Mode::Mem, "Disk" => Mode::Disk, _ => Mode::Cold };
+        if f.len() < 3 || !(f[0] == "Mem" || f[0] == "Disk" || f[0] == "Cold" || f[0] == "Evict") { continue; }
+        let mode = match f[0] { "Mem" => Mode::Mem, "Disk" => Mode::Disk, "Evict" => Mode::Evict, _ => Mode::Cold };
         let grab = |key: &str| -> String { let i = body.find(key).unwrap() + key.len(); body[i..].chars().take_while(|c| *c != ' ' && *c != ']').collect() };
         let list = |key: &str| -> Vec<usize> { let i = body.find(key).unwrap() + key.len(); let e = body[i..].find(']').unwrap(); body[i..i + e].split(',').filter(|x| !x.trim().is_empty()).map(|x| x.trim().parse().unwrap()).collect() };
         let r = Realisation { bounds: list(" b["), flush: list(" f[").into_iter().map(|x| x == 1).collect(), omit_null_cols: grab(" om") == "1",
@@ -630,6 +701,7 @@ fn replay(path: &std::path::Path) {
         print!("{} split={:?} obs={} => ", real.tag(), db.split, db.obs);
         match (&db.db, &db.fault) {
             (Some(d), None) => {
+                if mode == Mode::Evict { evict(d); }
                 let d2 = d.clone(); let s2 = sql.clone();
                 match with_deadline(DEADLINE_S, move || futures::executor::block_on(d2.run_query(&s2, true, true, vec![]))) {
                     None => println!("hang"),
@@ -659,6 +731,7 @@ fn main() {
     let mut rng = Rng::new(args.seed);
     let mut jobs: Vec<Job> = vec![];
     corpus(&mut jobs);
+    layout_pairs(&mut jobs, &mut Rng::new(args.seed ^ 0x9a12_5eed));
     let (tables, nreal, per_kind, budget_s, threads) = if args.thorough() { (500, 6, 4, 420u64, 12) } else { (90, 4, 2, 70u64, 12) };
     for _ in 0..tables {
         let n = *rng.pick(&[1usize, 2, 3, 5, 8, 9, 16, 17, 33, 70]);
@@ -693,7 +766,7 @@ fn main() {
         }
     }
     // the corpus always runs; generated tables are started until the time budget is used up
-    let ncorpus = jobs.iter().filter(|j| j.prefix.starts_with("corpus:")).count();
+    let ncorpus = jobs.iter().filter(|j| j.prefix.starts_with("corpus:") || j.prefix.starts_with("pair:")).count();
     let t0 = std::time::Instant::now();
     let skipped = Arc::new(std::sync::atomic::AtomicUsize::new(0));
     let sk = skipped.clone();
